@@ -74,19 +74,20 @@ def run(ctx):
     for i in range(0, len(obs), SHARD):
         cases = ";\n  ".join("(%s)" % to_case(o) for o in obs[i:i + SHARD])
         t = HEADER % (" Codec.ReuseGen" if have_gen else "", sname)
-        t += "Definition ccases : list c18c := [\n  %s\n].\nDefinition cases : list c18case := map (to_case18 sc) ccases.\n" % cases
-        t += "Definition B := Eval vm_compute in bad_cases18 cases.\nPrint B.\n"
-        t += "Definition P := Eval vm_compute in property_failures cases.\nPrint P.\n"
-        if have_gen:
-            t += "Definition M := Eval vm_compute in mismatches18 cases.\nPrint M.\n"
+        t += "Definition ccases : list c18c := [\n  %s\n].\n" % cases
+        t += ("Definition R := Eval vm_compute in let cases := map (to_case18 sc) ccases in\n"
+              "  (bad_cases18 cases, property_failures cases, %s).\nPrint R.\n" % ("mismatches18 cases" if have_gen else "@nil nat"))
         texts.append(t)
-    prints = ["B", "P", "M"] if have_gen else ["B", "P"]
+    prints = ["R"]
     with ThreadPoolExecutor(max_workers=10) as ex:
         futs = [ex.submit(c01.coq_batch, ctx, "C18_cases_%03d" % i, t, prints) for i, t in enumerate(texts)]
         results = [f.result() for f in futs]
     c01.cleanup_schema(sname)
     nm = 0
     for si, r in enumerate(results):
+        if r is None:
+            continue
+        r = c01.split_triple(ctx, r["R"])
         if r is None:
             continue
         badi = vlib.coq_nat_list(r["B"])
